@@ -44,8 +44,16 @@ type Hist struct {
 	poolAddr sdk.Address
 	minStake int64
 	recent   []string // addresses that recently left the consensus set
+	script   *Script  // a directed scenario instead of random actions (nil = random)
 	silent   bool     // block 1 (codec upgrade + state conversion, pre-modern rules) is run but not traced
 	genUpd   []abci.ValidatorUpdate
+}
+
+// Script is a directed scenario: per height the nodes that miss their vote and the actions to deliver.
+type Script struct {
+	miss    map[int64][]int    // height -> indexes of node keys that do not sign
+	actions map[int64][]string // height -> "unstake:<i>" | "stake:<i>"
+	step    time.Duration
 }
 
 func (h *Hist) nextEntropy() int64 { h.entropy++; return h.entropy }
@@ -103,12 +111,20 @@ func newHist(id int, mode string, r *gen.R, tr *gen.Trace) *Hist {
 	o := chain.GenesisOpts{ChainID: chainID, GenesisTime: gt, Accounts: all, Owner: h.owner, MinStake: h.minStake,
 		Balance: 200000000000}
 	nGen := 3 + r.Intn(4)
+	if (mode == "c25" || mode == "all") && id%5 == 3 {
+		// stale missed-block bits: node 0 misses blocks 4-5, unstakes, is paid out, stakes again and signs
+		h.script = &Script{miss: map[int64][]int{4: {0}, 5: {0}}, actions: map[int64][]string{5: {"unstake:0"}, 9: {"stake:0"}}, step: 2 * time.Minute}
+		nGen = 3
+	}
 	o.Mutate = func(g *chain.Genesis) {
 		p := &g.Nodes.Params
 		p.MaxValidators = int64(1 + r.Intn(5))
 		p.SessionBlockFrequency = int64(2 + r.Intn(4))
 		p.UnstakingTime = []time.Duration{0, time.Minute, 5 * time.Minute, time.Hour, 30 * time.Hour}[r.Intn(5)]
 		p.SignedBlocksWindow = int64([]int{10, 10, 11, 12}[r.Intn(4)])
+		if h.script != nil {
+			p.MaxValidators, p.SessionBlockFrequency, p.UnstakingTime, p.SignedBlocksWindow = 5, 2, time.Minute, 100
+		}
 		p.MinSignedPerWindow = sdk.NewDecWithPrec(int64([]int{50, 60, 75, 90}[r.Intn(4)]), 2)
 		p.DowntimeJailDuration = []time.Duration{time.Minute, 10 * time.Minute, 2 * time.Hour}[r.Intn(3)]
 		p.MaxJailedBlocks = int64([]int{2, 5, 9, 1000}[r.Intn(4)])
@@ -206,6 +222,9 @@ func (h *Hist) block(codes map[string]int) {
 	n, r := h.n, h.r
 	height := n.Height + 1
 	step := []time.Duration{time.Second, 20 * time.Second, time.Minute, 3 * time.Minute, 7 * time.Minute, time.Hour, 31 * time.Hour}[r.Intn(7)]
+	if h.script != nil {
+		step = h.script.step
+	}
 	h.t = h.t.Add(step)
 	bt := h.t.UTC()
 	// votes of the consensus set
@@ -213,6 +232,14 @@ func (h *Hist) block(codes map[string]int) {
 	var vs []string
 	for _, a := range h.tmAddrs() {
 		signed := h.silent || !r.Chance(h.flaky[a], 8)
+		if h.script != nil {
+			signed = true
+			for _, i := range h.script.miss[height] {
+				if h.nodes[i].Addr.String() == a {
+					signed = false
+				}
+			}
+		}
 		pw := h.tm[a]
 		if r.Chance(1, 40) {
 			pw = pw * 3 // a power that is not the node's current one (evidence of an older, larger stake)
@@ -221,7 +248,7 @@ func (h *Hist) block(codes map[string]int) {
 		votes = append(votes, abci.VoteInfo{Validator: abci.Validator{Address: addr, Power: pw}, SignedLastBlock: signed})
 		vs = append(vs, fmt.Sprintf("%s:%d:%d", hx(addr), pw, b2i(signed)))
 	}
-	if !h.silent && r.Chance(1, 15) { // a vote of somebody who is not (or no longer) a validator
+	if !h.silent && h.script == nil && r.Chance(1, 15) { // a vote of somebody who is not (or no longer) a validator
 		k := h.nodes[r.Intn(len(h.nodes))]
 		if _, member := h.tm[k.Addr.String()]; !member { // (one vote per validator per block)
 			votes = append(votes, abci.VoteInfo{Validator: abci.Validator{Address: k.Addr, Power: 15000}, SignedLastBlock: r.Bool()})
@@ -230,7 +257,7 @@ func (h *Hist) block(codes map[string]int) {
 	}
 	var evs []abci.Evidence
 	var es []string
-	if height > 2 && r.Chance(h.w(7, "c25", 20), 100) {
+	if height > 2 && h.script == nil && r.Chance(h.w(7, "c25", 20), 100) {
 		cands := append(h.tmAddrs(), h.recent...)
 		if len(cands) > 0 {
 			a := cands[r.Intn(len(cands))]
@@ -284,8 +311,13 @@ func (h *Hist) block(codes map[string]int) {
 	if r.Chance(1, 5) {
 		k += 3
 	}
-	if h.silent {
+	if h.silent || h.script != nil {
 		k = 0
+	}
+	if h.script != nil && !h.silent {
+		for _, a := range h.script.actions[height] {
+			h.scripted(a, height, bt, codes, &txs, &results)
+		}
 	}
 	if height == 3 {
 		h.setup(height, bt, codes, &txs, &results)
